@@ -43,19 +43,89 @@ class Roles:
             self._c[k] = fn()
         return self._c[k]
 
+    # ---- views (DESIGN.md section 12): role bodies are looked at with their single-call-site helpers spliced in
+    def V(self, b):
+        return self.f.view(b)
+
+    def origins_of_view(self, b):
+        """names of the bodies whose code is part of b's view (b itself included)"""
+        def go():
+            v = self.f.view(b)
+            return {blk.get("origin", b.name) for blk in v.j["blocks"]} | {b.name}
+        return self._memo(("vo", b.name), go)
+
+    def contains(self, a, b):
+        """b's code is spliced into a's view"""
+        return a.name != b.name and b.name in self.origins_of_view(a)
+
+    def minimal(self, cands):
+        """of the raw bodies `cands` (whose views satisfy some role predicate) keep the innermost ones: those that contain no other candidate"""
+        out = [b for b in cands if not any(self.contains(b, c) for c in cands)]
+        return sorted(out, key=lambda b: b.name)
+
+    def outermost(self, cands):
+        out = [b for b in cands if not any(self.contains(c, b) for c in cands)]
+        return sorted(out, key=lambda b: b.name)
+
+    def site_in(self, role_views, body, bb):
+        """(view, block) of raw site (body, bb) inside the first of `role_views` that contains body's code; else the body's own view"""
+        for v in role_views:
+            if v.name == body.name:
+                return v, bb
+            if body.name in self.origins_of_view(self.f.bodies[v.name]):
+                nb = v.locate(body.name, bb)
+                if nb is not None:
+                    return v, nb
+        return self.V(body), bb
+
+    def map_site(self, role_views, body, bb, st):
+        """like site_in, also returning the statement as it appears in the view (locals renumbered by the splice)"""
+        v, nb = self.site_in(role_views, body, bb)
+        if v is body or (v.name == body.name and nb == bb and v.blocks[nb]["stmts"] and st in v.blocks[nb]["stmts"]):
+            return v, nb, st
+        try:
+            idx = next(i for i, x in enumerate(body.blocks[bb]["stmts"]) if x is st)
+            return v, nb, v.blocks[nb]["stmts"][idx]
+        except (StopIteration, IndexError, KeyError):
+            return v, nb, st
+
+    def is_role(self, role_views, body):
+        return any(v.name == body.name for v in role_views)
+
+    def roots(self):
+        """user bodies that are not spliced into any other body's view"""
+        def go():
+            ub = self.f.user_bodies()
+            inl = set()
+            for b in ub:
+                inl |= self.origins_of_view(b) - {b.name}
+            return [b for b in ub if b.name not in inl]
+        return self._memo("roots", go)
+
+    def root_views(self):
+        return self._memo("root_views", lambda: [self.V(b) for b in self.roots()])
+
+    def container(self, b):
+        """the root body whose view contains b's code (b itself if it is a root)"""
+        for rb in self.roots():
+            if rb.name == b.name or b.name in self.origins_of_view(rb):
+                return rb
+        return b
+
     # ---- message-loop roles
     def actors(self):
         def go():
-            out = [b for b in self.f.code_bodies() if b.coroutine and any(tyname(ty) == "ActorInputMessage" for ty, _ in recv_types(b))]
-            return sorted(out, key=lambda b: b.name)
+            cands = [b for b in self.f.user_bodies() if b.coroutine and any(tyname(ty) == "ActorInputMessage" for ty, _ in recv_types(self.V(b)))
+                     and arm_by_payload(self.V(b), lambda p: "ActorInputMessage" in p)]
+            return [self.V(b) for b in self.minimal(cands)]
         return self._memo("actors", go)
 
     def relays(self):
         """message loops of the engine: bodies with a select arm on the actors' output channel"""
         def go():
-            out = [b for b in self.f.code_bodies() if b.coroutine and any(tyname(ty) == "TargetActorOutputMessage" for ty, _ in recv_types(b))
-                   and arm_by_payload(b, lambda p: "TargetActorOutputMessage" in p)]
-            return sorted(out, key=lambda b: b.name)
+            cands = [b for b in self.f.user_bodies() if b.coroutine and any(tyname(ty) == "TargetActorOutputMessage" for ty, _ in recv_types(self.V(b)))
+                     and arm_by_payload(self.V(b), lambda p: "TargetActorOutputMessage" in p)]
+            return [self.V(b) for b in self.minimal(cands)]
         return self._memo("relays", go)
 
     def actor_label(self, b):
@@ -93,12 +163,14 @@ class Roles:
         return self._memo("helper_methods", go)
 
     def readiness_predicates(self):
+        """fn(&TargetActorHelper, ExecutionKind) -> bool consulted by an actor (looked at with its private helpers spliced in)"""
         def go():
-            out = []
-            for b in self.f.code_bodies():
+            cands = []
+            for b in self.f.user_bodies():
                 if b.argc == 2 and b.ret == "bool" and re.match(r"&[\w:]*TargetActorHelper$", b.locals[1]["ty"]) and tyname(b.locals[2]["ty"]) == "ExecutionKind":
-                    out.append(b)
-            return out
+                    cands.append(b)
+            called = [b for b in cands if any(calls_in(a, None, lambda n, b=b: n == b.name) for a in self.actors())]
+            return [self.V(b) for b in (called or self.outermost(cands))]
         return self._memo("readiness", go)
 
     def field_writes(self, field, adt_suffix="TargetActorHelper"):
@@ -180,17 +252,31 @@ class Roles:
             return self.f.bodies[body.parent]
         return body
 
-    def callers_of(self, body):
-        """[(caller body, bb, term)] calling the fn of this body"""
+    def callers_of(self, body, prefer=None):
+        """[(caller view, bb, term)] of every call of the fn of this body. The call site is reported inside the innermost preferred role view that
+        contains it (default: actors and relays), otherwise inside the root view containing it - so that the guards of the real caller are visible
+        even when the call sits in an extracted helper."""
         fn = self.fn_of(body)
+        prefer = prefer if prefer is not None else (self.actors() + self.relays())
         out = []
+        seen = set()
         for (cn, bb) in self.f.cg.call_sites.get(fn.name, ()):
             if bb is None:
                 continue
-            cb = self.f.bodies[cn]
-            t = cb.term(bb)
-            if t["k"] == "call":
-                out.append((cb, bb, t))
+            raw = self.f.bodies[cn]
+            if raw.term(bb)["k"] != "call":
+                continue
+            v, nb = self.site_in(prefer, raw, bb)
+            if not self.is_role(prefer, v):
+                root = self.container(raw)
+                rv = self.V(root)
+                nb2 = rv.locate(raw.name, bb) if root.name != raw.name else bb
+                if nb2 is not None:
+                    v, nb = rv, nb2
+            if (v.name, nb) in seen:
+                continue
+            seen.add((v.name, nb))
+            out.append((v, nb, v.term(nb)))
         return out
 
     # ---- process / incremental roles
@@ -313,14 +399,27 @@ class Roles:
             return out
         return self._memo("resolvers", go)
 
-    def launchers(self):
-        """bodies that create an actor's run future (and are expected to hand it to task::spawn)"""
+    def launch_sites(self):
+        """[(root view, bb, term)] of every creation of an actor's run future, seen in the root view that contains it (so that the registry's guards,
+        the watcher construction and the storing of the handles are visible together, whatever helper functions they were split into)"""
         def go():
             out = []
+            seen = set()
             for a in self.actors():
-                for (cb, bb, t) in self.callers_of(a):
-                    if cb not in out:
-                        out.append(cb)
+                for (v, bb, t) in self.callers_of(a, prefer=[]):
+                    if (v.name, bb) not in seen:
+                        seen.add((v.name, bb))
+                        out.append((v, bb, t))
+            return out
+        return self._memo("launch_sites", go)
+
+    def launchers(self):
+        """root views that create an actor's run future"""
+        def go():
+            out = []
+            for (v, bb, t) in self.launch_sites():
+                if not any(x.name == v.name for x in out):
+                    out.append(v)
             return out
         return self._memo("launchers", go)
 
@@ -328,7 +427,7 @@ class Roles:
         b = self.f.bodies.get("main")
         if not b:
             raise AnchorLost("fn main")
-        return b
+        return self.V(b)
 
     def main_async(self):
         """the async block main hands to block_on"""
@@ -336,7 +435,7 @@ class Roles:
         for n, uses in self.f.cg.spawn_roots.items():
             for (how, inb, bb) in uses:
                 if how == "block_on" and inb == m.name:
-                    return self.f.bodies[n]
+                    return self.V(self.f.bodies[n])
         raise AnchorLost("async block passed to task::block_on in main")
 
 
